@@ -437,6 +437,25 @@ def _det(a):
     return tot
 
 
+def spec_side(fn):
+    """divisions inside stand for numpy.linalg/scipy.linalg itself: their divisors delimit the
+    domain of the specification (singular matrix) and are not divisions performed by algopy"""
+    import functools
+
+    @functools.wraps(fn)
+    def wrapper(*a, **kw):
+        ctx = S.current_ctx()
+        if ctx is None:
+            return fn(*a, **kw)
+        ctx.spec_depth += 1
+        try:
+            return fn(*a, **kw)
+        finally:
+            ctx.spec_depth -= 1
+    return wrapper
+
+
+@spec_side
 def exact_inv(a):
     a = np.asarray(a, dtype=object)
     n = a.shape[0]
@@ -458,6 +477,7 @@ def exact_inv(a):
     return out
 
 
+@spec_side
 def exact_solve(a, b):
     a = np.asarray(a, dtype=object)
     b = np.asarray(b, dtype=object)
